@@ -288,13 +288,30 @@ func runC11(s *kernel.Sim, cfg string) {
 			}
 			l.origin.Set(hashPath(id), text)
 			failNext[hashPath(id)] = r > 1 && t.Chance(1, 4, "refresh-fails")
+			unparseable := r > 1 && !failNext[hashPath(id)] && t.Chance(1, 6, "list-cannot-be-read")
+			if unparseable {
+				// The download succeeds, but after some of its lines the list
+				// has one that no reader takes (longer than 64 KiB): the list
+				// is rejected, as a whole.
+				lines := strings.SplitAfter(text, "\n")
+				k := t.Choose(len(lines)+1, "long-line-after")
+				l.origin.Set(hashPath(id), strings.Join(lines[:k], "")+strings.Repeat("z", 70000)+"\n"+strings.Join(lines[k:], ""))
+				s.Fault("list-with-a-line-too-long")
+			}
 			var rerr error
 			if r == 1 {
 				rerr = l.hp[id].RefreshInitial(rctx)
 			} else {
 				rerr = l.hp[id].Refresh(rctx)
 			}
-			if !failNext[hashPath(id)] {
+			if unparseable {
+				if rerr == nil {
+					s.Failf("C11/refresh", "a list that cannot be read was accepted", "%s", id)
+
+					return
+				}
+				s.Probe("failed-reset-keeps-list")
+			} else if !failNext[hashPath(id)] {
 				if rerr != nil {
 					s.Failf("C11/refresh", "list reset failed without a fault", "%s: %v", id, rerr)
 
